@@ -27,7 +27,7 @@ type HCase struct {
 func genHCase(t *rapid.T) HCase {
 	h := cmdhist.GenWith(t, cmdhist.GenOpts{TwoGPUs: true, TimingBias: true, MotifBias: true})
 	if h.N > 4096 {
-		h.N = 4096 // keeps the two-GPU timing run affordable
+		h.LimitN(4096) // keeps the two-GPU timing run affordable
 	}
 	return HCase{H: h}
 }
